@@ -451,4 +451,29 @@ def colourInput (f : Fmt) (p : Px) : List Nat :=
     | _ => [c p.r, c p.g, c p.b]
   raw.map cl
 
+/-! ## specification predicates of the theorems (no Rust counterpart) -/
+
+/-- the index `block_closest` / `block_dither` store for pixel `p` -/
+def indexAt (alphaMap : Nat) (sel : Nat → Nat) (p : Nat) : Nat := if isOpaque alphaMap p then sel p else 3
+
+/-- what index `k` of the palette the encoder built over the ORDERED 5:6:5 pair `e` in mode `mode` stands for, as the
+8-bit RGB the format specification assigns to it: the exact rational entry (`c0`, `c1`, `(2·c0 + c1)/3`, `(c0 + 2·c1)/3`
+in P4; `c0`, `c1`, `(c0 + c1)/2`, black in P3) per channel over `e/31`, `e/63`, nearest 8-bit value (`BcSpec.chan8`) -/
+def intendedRgb (mode : PaletteMode) (e : C565 × C565) (k : Nat) : List Nat :=
+  let four := decide (mode = .p4)
+  [BcSpec.chan8 four k e.1.r e.2.r 31, BcSpec.chan8 four k e.1.g e.2.g 63, BcSpec.chan8 four k e.1.b e.2.b 31]
+
+/-- the alpha of entry `k`: 0 only for the transparent entry (index 3 of P3) -/
+def intendedA (mode : PaletteMode) (k : Nat) : Nat := if mode = .p3 ∧ k = 3 then 0 else 255
+
+/-- RGBA of entry `k` (BC1) -/
+def intendedColour (mode : PaletteMode) (e : C565 × C565) (k : Nat) : List Nat := intendedRgb mode e k ++ [intendedA mode k]
+
+/-- the value in [0, 1] index `k` of a BC4-type palette stands for: endpoints `e0/m`, `e1/m` (`m = 255`: the bytes;
+`m = 254`: the SNORM levels `0..254` shown as `(v + 1)/2`), `six` = the eight-value palette -/
+def intended4 (six : Bool) (e0 e1 m k : Nat) : Rat := BcSpec.bc4Entry six k e0 e1 m
+
+/-- the SNORM level `0..254` of an endpoint byte (`-128` and `-127` are both level 0) -/
+def levelOfByte (snorm : Bool) (c : Nat) : Nat := if snorm then BcSpec.snormU c else c
+
 end Dds.Enc15
